@@ -75,6 +75,10 @@
 (*                    assignment only                  -> FormatIsCurrent  *)
 (*   "OlderBlocksMemo"  the text of all blocks but the first is memoised,  *)
 (*                    keyed by the number of blocks    -> FormatIsCurrent  *)
+(*   "InternedVersions"  one shared mutable Version object per version     *)
+(*                    string                           -> ExposedAsWritten *)
+(*   "acceptsNewlineVersion"  set_version accepts a valid version followed *)
+(*                    by a newline                     -> NormalFormEdited *)
 (*   "keepNoDetails"  the rejected ' --' line is kept as a change line:    *)
 (*                    NOT a violation (still a normal form) -- documents   *)
 (*                    that the law is insensitive to it.                   *)
@@ -248,6 +252,15 @@ PStep(p, ln, a) == LET b == TheBranch(p.st, p.old, ln.c, a) IN Apply(p, ln, BOut
 \* the open block is stored without trailer.
 EofBad(p)  == p.st \notin {"NH", "SL"} \/ (p.st = "SL" /\ p.old # "NH")
 EofWarn(p) == IF ~p.nonblank \/ EofBad(p) THEN 1 ELSE 0
+\* The "empty file" rule exists for the string forms of the input only (str, bytes).  When the text arrives
+\* as a file object or any other iterable of lines ("lines" form) a blank-only text is parsed like any other:
+\* its lines become initial lines and the end-of-input rule stores an empty block (one warning as well).
+PEofF(p, f) ==
+           IF ~p.nonblank /\ f = "text" THEN [p EXCEPT !.nw = 1, !.doc = EmptyDoc, !.nb = 0, !.st = "END"]
+           ELSE IF EofBad(p)
+           THEN [p EXCEPT !.nw = @ + 1, !.nb = @ + 1, !.st = "END",
+                          !.doc.bl = Append(@, MkBlock(p.cur, p.chg, None, None, 2, TRUE))]
+           ELSE [p EXCEPT !.st = "END"]
 PEof(p) == IF ~p.nonblank THEN [p EXCEPT !.nw = 1, !.doc = EmptyDoc, !.nb = 0, !.st = "END"]
            ELSE IF EofBad(p)
            THEN [p EXCEPT !.nw = @ + 1, !.nb = @ + 1, !.st = "END",
@@ -262,10 +275,15 @@ ParseText(t, a) == PEof(PFold(PInit, t, 1, a))
 \* the formatter
 
 HdrLine(b) == [c |-> b.k, id |-> 0, h |-> b.h]
+\* Bug = "acceptsNewlineVersion": set_version stores a value with a trailing newline; the header then
+\* formats to two lines, neither of which is a heading
+BadVer == -3
+HdrLines(b) == IF b.h[2] = BadVer THEN <<[c |-> "Junk", id |-> 0, h |-> <<b.h[1]>>], [c |-> "Junk", id |-> 0, h |-> <<b.h[3]>>]>>
+               ELSE <<HdrLine(b)>>
 EndLine(b) == [c |-> IF b.sep = 2 THEN "EndOK" ELSE "EndOneSpace", id |-> 0, h |-> <<b.au, b.da>>]
 FormatBlock(b) == IF Bug = "trailingFirst"
-                  THEN <<HdrLine(b)>> \o b.ch \o b.tr \o (IF b.nt THEN <<>> ELSE <<EndLine(b)>>)
-                  ELSE <<HdrLine(b)>> \o b.ch \o (IF b.nt THEN <<>> ELSE <<EndLine(b)>>) \o b.tr
+                  THEN HdrLines(b) \o b.ch \o b.tr \o (IF b.nt THEN <<>> ELSE <<EndLine(b)>>)
+                  ELSE HdrLines(b) \o b.ch \o (IF b.nt THEN <<>> ELSE <<EndLine(b)>>) \o b.tr
 RECURSIVE FormatBlocks(_, _)
 FormatBlocks(bl, i) == IF i > Len(bl) THEN <<>> ELSE FormatBlock(bl[i]) \o FormatBlocks(bl, i + 1)
 Format(d) == d.ini \o FormatBlocks(d.bl, 1)
@@ -299,8 +317,12 @@ LastNonBlank(ch) == LET S == {j \in 1..Len(ch) : ~IsBlankLine(ch[j])} IN IF S = 
 MAddChange(ch, ln) == LET j == LastNonBlank(ch) IN
                       IF j = 0 THEN Append(ch, ln) ELSE SubSeq(ch, 1, j) \o <<ln>> \o SubSeq(ch, j + 1, Len(ch))
 
+\* SetVersionWS: Changelog.version / set_version with a valid version string plus leading / trailing white
+\* space or a newline.  Outside DESIGN D3, but "unspecified-but-consistent": the call either raises
+\* ValueError (document unchanged) or it is accepted, and then the changelog must still format to a normal
+\* form -- v = <<0>>: rejected, v = <<token>>: the version the block shows afterwards.
 EditOps == {"NewBlockFull", "NewBlockEmpty", "AddBlank", "AddChange", "SetPackage", "SetVersion",
-            "SetDistributions", "SetUrgency", "SetAuthor", "SetDate"}
+            "SetDistributions", "SetUrgency", "SetAuthor", "SetDate", "SetVersionWS"}
 EditEnabled(d, op) == op \in {"NewBlockFull", "NewBlockEmpty"} \/ Len(d.bl) > 0
 \* v: the argument tokens.  NewBlockFull <<package, version, distributions, urgency, rest, author, date, b>>,
 \* NewBlockEmpty <<b>> (b: the '' line that new_block adds as trailing line), AddBlank / AddChange <<line id>>,
@@ -315,6 +337,7 @@ EditApply(d, op, v) ==
     [] op = "AddChange"     -> [d EXCEPT !.bl[1].ch = MAddChange(@, [c |-> "Change", id |-> v[1], h |-> <<>>])]
     [] op = "SetPackage"    -> [d EXCEPT !.bl[1].h[1] = v[1]]
     [] op = "SetVersion"    -> [d EXCEPT !.bl[1].h[2] = v[1]]
+    [] op = "SetVersionWS"  -> IF v[1] = 0 THEN d ELSE [d EXCEPT !.bl[1].h[2] = v[1]]
     [] op = "SetDistributions" -> [d EXCEPT !.bl[1].h[3] = v[1]]
     [] op = "SetUrgency"    -> [d EXCEPT !.bl[1].h[4] = v[1]]
     [] op = "SetAuthor"     -> [d EXCEPT !.bl[1].au = v[1]]
@@ -324,6 +347,7 @@ ModelArgs(op, k) ==
   CASE op = "NewBlockFull"  -> <<101, 102, 103, 104, 105, 106, 107, 300>>
     [] op = "NewBlockEmpty" -> <<300>>
     [] op \in {"AddBlank", "AddChange"} -> <<200 + k>>
+    [] op = "SetVersionWS" -> <<IF Bug = "acceptsNewlineVersion" THEN BadVer ELSE 0>>
     [] op = "SetPackage" -> <<111>> [] op = "SetVersion" -> <<112>> [] op = "SetDistributions" -> <<113>>
     [] op = "SetUrgency" -> <<114>> [] op = "SetAuthor" -> <<116>> [] op = "SetDate" -> <<117>>
 
@@ -352,6 +376,10 @@ HistOps(d) ==
    \cup {<<"ChInsert", i, 1>> : i \in 1..n}
    \cup {<<"ChDelete", i, Len(d.bl[i].ch)>> : i \in {j \in 1..n : Len(d.bl[j].ch) > 0}}
    \cup {<<"NewBlockFull", 0, 0>>} \cup (IF n > 0 THEN {<<"AddChange", 0, 0>>} ELSE {})
+   \cup {<<"MutVer", i, 0>> : i \in 1..n}
+\* MutVer: take the Version object the API hands out for block i (block.version, cl.version, cl.versions[i])
+\* and change one of its components in place.  The handed-out object is a value of its own: the document
+\* does not change, and no other block, parse or object is affected.
 HValid(d, op) ==
    LET n == Len(d.bl) IN
    CASE op[1] = "Fmt" -> op[2] \in 0..n
@@ -367,7 +395,7 @@ DeleteAt(s, p) == SubSeq(s, 1, p - 1) \o SubSeq(s, p + 1, Len(s))
 LineClass(v) == IF Len(v) >= 2 /\ v[2] = 1 THEN "Blank" ELSE "Change"
 HApply(d, op, v) ==
    LET i == op[2] IN
-   CASE op[1] = "Fmt"         -> d
+   CASE op[1] \in {"Fmt", "MutVer"} -> d
      [] op[1] = "BSet"        -> IF op[3] <= 4 THEN [d EXCEPT !.bl[i].h[op[3]] = v[1]]
                                  ELSE IF op[3] = 5 THEN [d EXCEPT !.bl[i].au = v[1]] ELSE [d EXCEPT !.bl[i].da = v[1]]
      [] op[1] = "BPair"       -> [d EXCEPT !.bl[i].h = Append(@, v[1])]
@@ -386,7 +414,11 @@ HModelArgs(op, k) ==
 
 \* --- render layer
 NoText == <<>>                       \* "nothing kept"; a kept text is <<text>>
-RInit == [rc |-> <<>>, om |-> <<>>, out |-> <<>>, fresh |-> FALSE, what |-> 0]
+\* vt: Bug = "InternedVersions" -- one shared Version object per version string: the set of <<token written,
+\*     token shown>> after in-place edits of handed-out objects;  mut: blocks (of this object) whose
+\*     handed-out Version was edited: what THEY show as version afterwards is not judged
+RInit == [rc |-> <<>>, om |-> <<>>, out |-> <<>>, fresh |-> FALSE, what |-> 0, vt |-> {}, mut |-> {}]
+Shown(r, tok) == IF \E x \in r.vt : x[1] = tok THEN (CHOOSE x \in r.vt : x[1] = tok)[2] ELSE tok
 RBlock(d, r, i) == IF BlockRenderCache /\ i <= Len(r.rc) /\ r.rc[i] # NoText THEN r.rc[i][1] ELSE FormatBlock(d.bl[i])
 RECURSIVE ROlder(_, _, _)
 ROlder(d, r, i) == IF i > Len(d.bl) THEN <<>> ELSE RBlock(d, r, i) \o ROlder(d, r, i + 1)
@@ -410,8 +442,11 @@ RInvalidate(r, op) ==
    LET r1 == [r EXCEPT !.fresh = FALSE] IN
    CASE op[1] = "BSet" -> [r1 EXCEPT !.rc = [j \in 1..Len(@) |-> IF j = op[2] THEN NoText ELSE @[j]]]
      [] op[1] = "AddChange" -> [r1 EXCEPT !.rc = [j \in 1..Len(@) |-> IF j = 1 THEN NoText ELSE @[j]]]
-     [] op[1] = "NewBlockFull" -> [r1 EXCEPT !.rc = <<NoText>> \o @, !.om = <<>>]
+     [] op[1] = "NewBlockFull" -> [r1 EXCEPT !.rc = <<NoText>> \o @, !.om = <<>>, !.mut = {j + 1 : j \in @}]
      [] OTHER -> r1
+RMutVer(r, d, i, newtok) ==
+   [r EXCEPT !.mut = @ \cup {i},
+             !.vt = IF Bug = "InternedVersions" THEN {x \in @ : x[1] # d.bl[i].h[2]} \cup {<<d.bl[i].h[2], newtok>>} ELSE @]
 RefOut(d, i) == IF i = 0 THEN Format(d) ELSE FormatBlock(d.bl[i])
 
 ----------------------------------------------------------------------------
@@ -527,7 +562,9 @@ HistStep == /\ Mode = "hist" /\ phase = "edit" /\ Len(ops) < MaxEdits
             /\ \E op \in HistOps(D) :
                  /\ D' = HApply(D, op, HModelArgs(op, Len(ops)))
                  /\ ops' = Append(ops, op)
-                 /\ rs' = IF op[1] = "Fmt" THEN RFormat(D, rs, op[2]) ELSE RInvalidate(rs, op)
+                 /\ rs' = IF op[1] = "Fmt" THEN RFormat(D, rs, op[2])
+                          ELSE IF op[1] = "MutVer" THEN RMutVer(rs, D, op[2], 400 + 10 * Len(ops))
+                          ELSE RInvalidate(rs, op)
             /\ UNCHANGED <<P, aea, sraised, text, gen, budget, phase>>
 
 Next == \/ \E c \in Classes : LConsume(c)
@@ -576,13 +613,22 @@ BlocksAsWritten ==
             /\ d.bl[i].tr = w.bl[i].sep
 
 \* C15
-NormalForm       == (Mode # "lts" /\ phase = "text") => NormalFormOf(Res.doc)
+NormalForm       == (Mode # "lts" /\ phase = "text") => (NormalFormOf(Res.doc) /\ NormalFormOf(PEofF(P, "lines").doc))
+\* the two input forms differ on blank-only texts only
+FormsAgree       == (Mode # "lts" /\ phase = "text" /\ P.nonblank) => PEofF(P, "lines") = PEofF(P, "text")
 NormalFormEdited == phase = "edit" => NormalFormOf(D)
 \* formatting what was parsed gives the input back whenever nothing was warned about (lenient = strict)
 CleanRoundTrip   == (Mode # "lts" /\ phase = "text" /\ Res.nw = 0 /\ Formattable(Res.doc)) => Format(Res.doc) = text
 
 \* C04 / C15, histories: every observed output is the reference Format of the CURRENT document
 FormatIsCurrent == rs.fresh => rs.out = <<RefOut(D, rs.what)>>
+\* C04, histories: what the blocks expose is what was written -- on a fresh parse of the same text whatever
+\* was done to objects handed out before, and on the edited object itself (except the version of a block
+\* whose own handed-out Version was edited)
+ExposedAsWritten ==
+   (Mode = "hist" /\ phase = "edit") =>
+      /\ LET f == ParseText(text, aea).doc IN \A j \in 1..Len(f.bl) : Shown(rs, f.bl[j].h[2]) = f.bl[j].h[2]
+      /\ \A j \in 1..Len(D.bl) : j \notin rs.mut => Shown(rs, D.bl[j].h[2]) = D.bl[j].h[2]
 NormalFormHist  == (Mode = "hist" /\ phase = "edit") => NormalFormOf(D)
 HistFormattable == (Mode = "hist" /\ phase = "edit") => (Formattable(D) /\ Specified(D))
 
@@ -606,7 +652,10 @@ EmitEdit == (Emit /\ Mode = "edit" /\ phase = "edit") =>
                PrintT(<<"CASE", ToJson([t |-> TextClasses, aea |-> aea, ops |-> ops,
                                         fmt |-> Formattable(D), spec |-> Specified(D), doc |-> Struct(D)])>>)
 LineToks(t) == [i \in 1..Len(t) |-> [c |-> t[i].c, id |-> t[i].id, h |-> t[i].h]]
+RECURSIVE SetToSeq0(_)
+SetToSeq0(S) == IF S = {} THEN <<>> ELSE LET x == CHOOSE y \in S : \A z \in S : y <= z IN <<x>> \o SetToSeq0(S \ {x})
 EmitHist == (Emit /\ Mode = "hist" /\ phase = "edit" /\ rs.fresh) =>
                PrintT(<<"CASE", ToJson([t |-> TextClasses, aea |-> aea, ops |-> ops, what |-> rs.what,
-                                        out |-> LineToks(RefOut(D, rs.what)), doc |-> Struct(D)])>>)
+                                        out |-> LineToks(RefOut(D, rs.what)), doc |-> Struct(D),
+                                        base |-> Struct(ParseText(text, aea).doc), mut |-> SetToSeq0(rs.mut)])>>)
 =============================================================================
